@@ -25,6 +25,8 @@ type mMsg struct {
 	known       map[protoreflect.FieldNumber]*mSlot
 	sharedAlias bool // stored somewhere by reference (message assignment)
 	sharedCopy  bool // shared by a shallow copy Message(m)
+	everCopy    bool // was at some time inside a region shared by a shallow copy
+	everAlias   bool // was at some time inside a region shared by a message stored by reference
 }
 
 type mSlot struct {
@@ -44,6 +46,8 @@ type mList struct {
 	elems      []mElem
 	immutable  bool // the frozen empty default of an unset repeated field
 	sharedCopy bool
+	everCopy   bool
+	everAlias  bool
 }
 
 type mMap struct {
@@ -51,6 +55,8 @@ type mMap struct {
 	vals       map[string]mElem
 	immutable  bool
 	sharedCopy bool
+	everCopy   bool
+	everAlias  bool
 }
 
 var errModel = errors.New("model: operation must fail")
@@ -116,6 +122,36 @@ func (w *world) markCopy(n any) {
 	}
 }
 
+// taint records, on every node currently inside a shared region, that it was there: a view handle
+// keeps such a node reachable by both wrapper groups after an assignment has detached it from the
+// region (m.mst = {...} leaves earlier views of m.mst on the old storage).
+func (w *world) taint() {
+	for _, x := range w.marked {
+		xv := newVisitor()
+		var c, a bool
+		switch x := x.(type) {
+		case *mMsg:
+			xv.msg(x)
+			c, a = x.sharedCopy, x.sharedAlias
+		case *mList:
+			xv.list(x)
+			c = x.sharedCopy
+		case *mMap:
+			xv.mapn(x)
+			c = x.sharedCopy
+		}
+		for n := range xv.msgs {
+			n.everCopy, n.everAlias = n.everCopy || c, n.everAlias || a
+		}
+		for n := range xv.lists {
+			n.everCopy, n.everAlias = n.everCopy || c, n.everAlias || a
+		}
+		for n := range xv.maps {
+			n.everCopy, n.everAlias = n.everCopy || c, n.everAlias || a
+		}
+	}
+}
+
 const maxViews = 8
 
 func (w *world) all() []*handle {
@@ -159,7 +195,7 @@ func (w *world) clone() *world {
 		if n, ok := lists[l]; ok {
 			return n
 		}
-		n := &mList{id: l.id, immutable: l.immutable, sharedCopy: l.sharedCopy}
+		n := &mList{id: l.id, immutable: l.immutable, sharedCopy: l.sharedCopy, everCopy: l.everCopy, everAlias: l.everAlias}
 		lists[l] = n
 		for _, e := range l.elems {
 			n.elems = append(n.elems, ce(e))
@@ -173,7 +209,7 @@ func (w *world) clone() *world {
 		if n, ok := maps[m]; ok {
 			return n
 		}
-		n := &mMap{id: m.id, immutable: m.immutable, sharedCopy: m.sharedCopy, vals: map[string]mElem{}}
+		n := &mMap{id: m.id, immutable: m.immutable, sharedCopy: m.sharedCopy, everCopy: m.everCopy, everAlias: m.everAlias, vals: map[string]mElem{}}
 		maps[m] = n
 		for k, e := range m.vals {
 			n.vals[k] = ce(e)
@@ -187,7 +223,7 @@ func (w *world) clone() *world {
 		if n, ok := msgs[m]; ok {
 			return n
 		}
-		n := &mMsg{id: m.id, md: m.md, known: map[protoreflect.FieldNumber]*mSlot{}, sharedAlias: m.sharedAlias, sharedCopy: m.sharedCopy}
+		n := &mMsg{id: m.id, md: m.md, known: map[protoreflect.FieldNumber]*mSlot{}, sharedAlias: m.sharedAlias, sharedCopy: m.sharedCopy, everCopy: m.everCopy, everAlias: m.everAlias}
 		msgs[m] = n
 		for num, s := range m.known {
 			n.known[num] = &mSlot{sc: s.sc, msg: cm(s.msg), list: cl(s.list), mp: cp(s.mp)}
